@@ -639,7 +639,7 @@ public:
     std::vector<Nref> nodeObjects;
     for (typename std::vector<NodeGraphid>::iterator currNode = nodes.begin(); currNode != nodes.end(); currNode++)
     {
-      if (*currNode > graphidToN_.size())
+      if (*currNode >= graphidToN_.size())
         continue;
       Nref foundNodeObject = graphidToN_.at(*currNode);
       if (!foundNodeObject)
@@ -670,7 +670,7 @@ public:
     std::vector<Eref> edgeObjects;
     for (const auto& currEdge:edges)
     {
-      if (currEdge > graphidToE_.size())
+      if (currEdge >= graphidToE_.size())
         continue;
       Eref foundEdgeObject = graphidToE_.at(currEdge);
       if (!foundEdgeObject)
@@ -1201,7 +1201,7 @@ public:
     // testing if they are defined in this observer
     for (typename std::vector<NodeGraphid>::iterator currGraphLeave = graphLeaves.begin(); currGraphLeave != graphLeaves.end(); currGraphLeave++)
     {
-      Nref foundLeafObject = graphidToN_.at(*currGraphLeave);
+      Nref foundLeafObject = getNodeFromGraphid(*currGraphLeave);
       if (foundLeafObject != 00)
         leavesToReturn.push_back(foundLeafObject);
     }
@@ -1223,7 +1223,7 @@ public:
     // testing if they are defined in this observer
     for (typename std::vector<NodeGraphid>::iterator currGraphLeave = graphLeaves.begin(); currGraphLeave != graphLeaves.end(); currGraphLeave++)
     {
-      Nref foundLeafObject = graphidToN_.at(*currGraphLeave);
+      Nref foundLeafObject = getNodeFromGraphid(*currGraphLeave);
       if (foundLeafObject != 00)
         leavesToReturn.push_back(getNodeIndex(foundLeafObject));
     }
@@ -1244,7 +1244,7 @@ public:
     // testing if they are defined in this observer
     for (const auto& currGraphNode : graphNodes)
     {
-      Nref foundNodeObject = graphidToN_.at(currGraphNode);
+      Nref foundNodeObject = getNodeFromGraphid(currGraphNode);
       if (foundNodeObject != 00)
         nodesToReturn.push_back(foundNodeObject);
     }
@@ -1265,7 +1265,7 @@ public:
     // testing if they are defined in this observer
     for (const auto& currGraphNode : graphNodes)
     {
-      Nref foundNodeObject = graphidToN_.at(currGraphNode);
+      Nref foundNodeObject = getNodeFromGraphid(currGraphNode);
       if (foundNodeObject != 00)
         nodesToReturn.push_back(getNodeIndex(foundNodeObject));
     }
